@@ -3,9 +3,9 @@
    wf_trans c t := the target distribution of transition t has num_atoms entries (they need not sum to one:
    the network clamps probabilities at 1e-3).  project_flat c g ts is the flat (batch*atoms) array produced by
    the two index_add_ calls of _dqn_loss with batch offsets; None models IndexError. *)
-From Coq Require Import List ZArith QArith Qround.
+From Coq Require Import List ZArith QArith Qround Qabs.
 Import ListNotations.
-From AgileV Require Import C18.Model C18.Proofs.
+From AgileV Require Import C18.Model C18.Proofs C18.Kernel.
 Local Open Scope Q_scope.
 
 (* For every support with at least two atoms and v_min < v_max, every reward, done flag, discount and atom:
@@ -78,3 +78,61 @@ Proof.
   cbv zeta. split; [split; [cbn; auto | reflexivity]|]. split; [reflexivity|]. split; [reflexivity|].
   eexists. split; [vm_compute; reflexivity|]. vm_compute. repeat split.
 Qed.
+
+(* The element-wise loss that learn(per=True) returns as new priority (minus prior_eps) is the cross-entropy between
+   the projection of that row alone and the online log-distribution of the action taken: 1-step, n-step (discount
+   gamma^n) and combined (sum of both). *)
+Theorem priority_is_ce : forall c gamma n eps ss1 ssn, valid c ->
+  let gn := Qpower gamma (Z.of_nat n) in
+  (exists P, learn_priorities c gamma n eps OneStep ss1 ssn = Some P /\
+             Forall2 (fun x s => x == ce_row c gamma s + eps) P ss1) /\
+  (exists P, learn_priorities c gamma n eps NStep ss1 ssn = Some P /\
+             Forall2 (fun x s => x == ce_row c gn s + eps) P ssn) /\
+  (exists P, learn_priorities c gamma n eps Combined ss1 ssn = Some P /\
+             Forall2 (fun x p => x == ce_row c gamma (fst p) + ce_row c gn (snd p) + eps) P (combine ss1 ssn)).
+Proof. exact priority_is_ce_lemma. Qed.
+Print Assumptions priority_is_ce.
+
+(* The source distribution is the target network's distribution of the greedy next action: the first action
+   maximising the online expectation sum_i p_i z_i. *)
+Theorem greedy_is_argmax : forall c s, s_online s <> [] ->
+  let a := greedy c s in
+  (a < length (s_online s))%nat /\
+  (forall a', (a' < length (s_online s))%nat ->
+     qvalue c (nth a' (s_online s) []) <= qvalue c (nth a (s_online s) [])) /\
+  (forall a', (a' < a)%nat -> qvalue c (nth a' (s_online s) []) < qvalue c (nth a (s_online s) [])).
+Proof. exact greedy_is_argmax_lemma. Qed.
+Print Assumptions greedy_is_argmax.
+
+(* Behaviour before fix c92d5ae (b not clamped): with the float32 value b = 50 + 2^-18 > N-1 that the code computed for
+   51 atoms on [0, 13.1], the last row raises (None) and any other row leaks mass into the next row. *)
+Theorem unclamped_float_b_refuted :
+  inject_Z 50 < b_float_witness /\
+  project_flat_b 51 [[(b_float_witness, 1)]] = None /\
+  exists flat, project_flat_b 51 [[(b_float_witness, 1)]; [(0, 1)]] = Some flat /\
+               ~ Qsum (row_slice 51 0 flat) == 1 /\ ~ Qsum (row_slice 51 1 flat) == 1.
+Proof. exact unclamped_float_b_refuted_lemma. Qed.
+Print Assumptions unclamped_float_b_refuted.
+
+(* Each entry of row k is the triangular-kernel redistribution of transition k's source distribution:
+   proj_k[i] = sum_j p_j * max(0, 1 - |b_j - i|)  (the categorical projection of Bellemare et al.). *)
+Theorem projection_is_triangular_kernel : forall c g ts flat k t i, valid c ->
+  project_flat c g ts = Some flat -> nth_error ts k = Some t ->
+  nth i (row_slice (natoms c) k flat) 0 == kernel_entry c g t i.
+Proof. exact triangular_kernel_lemma. Qed.
+Print Assumptions projection_is_triangular_kernel.
+
+(* Justification of the correspondence tolerance: if every fractional index moves by at most d (float32 rounding of b),
+   every entry of the kernel sum moves by at most d * sum_j |p_j|. *)
+Theorem kernel_lipschitz : forall i d (l l' : list (Q * Q)),
+  Forall2 (fun bp bp' => snd bp == snd bp' /\ Qabs (fst bp - fst bp') <= d) l l' ->
+  Qabs (ksum i l - ksum i l') <= d * lsum (fun bp => Qabs (snd bp)) l.
+Proof. exact kernel_lipschitz_lemma. Qed.
+Print Assumptions kernel_lipschitz.
+
+(* The support is the N-point equally spaced grid from v_min to v_max. *)
+Theorem support_spec : forall c, valid c ->
+  length (support c) = natoms c /\ zat c 0 == vmin c /\ zat c (natoms c - 1) == vmax c /\
+  forall j, zat c (S j) - zat c j == delta c.
+Proof. exact support_spec_lemma. Qed.
+Print Assumptions support_spec.
